@@ -14,6 +14,7 @@ Unordered(e) == Has(e, "unordered") /\ e.unordered
 
 Step(e) ==
     \/ e.op = "write"         /\ Write(e.v, e.n, e.at)
+    \/ e.op = "write_through" /\ WriteThrough(e.v, e.ok, e.n, e.enc_len, e.sink_len, e.encp, e.sink, e.at)
     \/ e.op = "write_refused" /\ WriteRefused
     \/ e.op = "read"          /\ Read(e.v, e.consumed, e.at, Unordered(e))
     \/ e.op = "read_val"      /\ ReadVal(e.v, e.at, Unordered(e))
